@@ -194,6 +194,7 @@ func drawPartSpecs(t *Tape, kind string) (init []partSpec, later []partSpec) {
 	names := []string{"a", "b", "c", "d", "e", "f"}
 	// lookup: partition objects named differently from the keys they are registered under (tenant ids -> tier labels)
 	tiers := kind == "lookup" && t.Chance(40, "object-names-differ")
+	emptyKey := kind == "lookup" && t.Chance(15, "empty-key-partition")
 	mk := func(i int) partSpec {
 		k := 0
 		if left > 0 {
@@ -201,6 +202,9 @@ func drawPartSpecs(t *Tape, kind string) (init []partSpec, later []partSpec) {
 		}
 		left -= k
 		s := partSpec{name: names[i], match: names[i], k: k}
+		if emptyKey && i == 0 {
+			s.name, s.match = "", "" // a partition registered under the empty key: requests without a key belong to it
+		}
 		if tiers {
 			s.obj = []string{"gold", "silver"}[i%2]
 		}
